@@ -1,8 +1,20 @@
 import CanvasModel.Driver
 import CanvasModel.C01
+import CanvasModel.C01Avl
+import CanvasModel.C01Heap
+import CanvasModel.C01Cmp
+import CanvasModel.C01Merge
 import CanvasGen.SweepF
 open Canvas
 def handle : List String → Option String
   | "L1" :: name :: args => GenF.dispatchSweep name args
+  -- second wave: sweep-line data structures (AVL status, event heap, comparators, mergeOverlapping)
+  | "AVLI" :: rest => Canvas.C01Avl.handle ("AVLI" :: rest)
+  | "AVLR" :: rest => Canvas.C01Avl.handle ("AVLR" :: rest)
+  | "AVLQ" :: rest => Canvas.C01Avl.handle ("AVLQ" :: rest)
+  | "HEAP" :: rest => Canvas.C01Heap.handle ("HEAP" :: rest)
+  | "CMP" :: rest => Canvas.C01Cmp.handle ("CMP" :: rest)
+  | "IPY" :: rest => Canvas.C01Cmp.handle ("IPY" :: rest)
+  | "MRG" :: rest => Canvas.C01Merge.handle ("MRG" :: rest)
   | ts => Canvas.C01.handle ts
 def main : IO Unit := runDriver handle
